@@ -12,6 +12,7 @@ import (
 	"sort"
 	"strings"
 	"testing"
+	"time"
 
 	"verif/fw"
 	"verif/simrt"
@@ -130,9 +131,108 @@ func runC16S3(c *fw.Case) {
 	c.Outcome("ok")
 }
 
+// runC16SFTP prunes a directory through the real SFTPStore (sftp server spoken over stdio by the ssh shim).
+func runC16SFTP(c *fw.Case) {
+	unc := c.Bool("c16.uncompressed")
+	pool := c.Range(1, 3, "sftp.pool")
+	dir := filepath.Join(c.Dir(), "store")
+	os.MkdirAll(dir, 0755)
+	r := c.Rand("c16.seed")
+	type obj struct {
+		rel        string
+		kind       string
+		ownFmt     bool
+		referenced bool
+	}
+	var objs []*obj
+	keep := map[desync.ChunkID]struct{}{}
+	refMode := c.Draw(3, "ref.mode") // none, all, subset
+	n := c.Range(0, 16, "c16.objects")
+	for i := 0; i < n; i++ {
+		var id desync.ChunkID
+		for j := range id {
+			id[j] = byte(r.IntN(256))
+		}
+		sid := id.String()
+		rel := func(uncompressed bool) string {
+			k := filepath.Join(sid[:4], sid)
+			if !uncompressed {
+				k += ".cacnk"
+			}
+			return k
+		}
+		o := &obj{}
+		switch c.Draw(6, "sftpobj.kind") {
+		case 0, 1, 2:
+			o.rel, o.kind, o.ownFmt = rel(unc), "chunk", true
+		case 3:
+			o.rel, o.kind = rel(!unc), "chunk-other-format"
+		case 4:
+			o.rel, o.kind = filepath.Join(sid[:4], "notes.txt"), "junk"
+		case 5:
+			o.rel, o.kind = rel(unc)+fmt.Sprint(r.IntN(1<<30)), "abandoned-temp-object" // what StoreObject leaves behind when killed
+		}
+		if o.ownFmt && (refMode == 1 || (refMode == 2 && r.IntN(2) == 0)) {
+			o.referenced = true
+			keep[id] = struct{}{}
+		}
+		p := filepath.Join(dir, o.rel)
+		os.MkdirAll(filepath.Dir(p), 0755)
+		os.WriteFile(p, []byte("object "+o.kind), 0644)
+		objs = append(objs, o)
+	}
+	c.Class(fmt.Sprintf("sftp-prune unc=%v pool=%d objects<=%d", unc, pool, (n+7)/8*8))
+	c.Note("SFTP prune uncompressed=%v pool=%d objects=%d refMode=%d", unc, pool, n, refMode)
+	c.NonTrivial()
+	st, err := sftpStore(dir, pool, unc)
+	if err != nil {
+		c.HarnessError("%v", err)
+		return
+	}
+	done := make(chan error, 1)
+	go func() {
+		defer func() {
+			if r := recover(); r != nil {
+				done <- fmt.Errorf("panic: %v", r)
+			}
+		}()
+		done <- st.Prune(context.Background(), keep)
+	}()
+	var perr error
+	select {
+	case perr = <-done:
+		st.Close()
+	case <-time.After(5 * time.Second):
+		c.Violate("prune-hangs", "SFTPStore.Prune", "prune with a connection pool of %d did not return within 5 s (uncompressed=%v, %d objects)", pool, unc, n)
+		return
+	}
+	for _, o := range objs {
+		_, err := os.Lstat(filepath.Join(dir, o.rel))
+		there := err == nil
+		mustKeep := o.kind == "junk" || o.kind == "chunk-other-format" || (o.ownFmt && o.referenced)
+		if mustKeep && !there {
+			c.Violate("prune-deleted-too-much", "SFTPStore.Prune/"+o.kind, "prune removed %s (%s, referenced=%v)", o.rel, o.kind, o.referenced)
+			return
+		}
+		if perr == nil && !mustKeep && there {
+			c.Violate("prune-left-garbage", "SFTPStore.Prune/"+o.kind, "prune reported success (uncompressed=%v) but unreferenced %s (%s) is still there", unc, o.rel, o.kind)
+			return
+		}
+	}
+	if perr != nil {
+		c.Violate("prune-failed", "SFTPStore.Prune", "%v", perr)
+		return
+	}
+	c.Outcome("ok")
+}
+
 func runC16(c *fw.Case) {
 	if c.Chance(1, 12, "c16.s3") {
 		runC16S3(c)
+		return
+	}
+	if c.Chance(1, 40, "c16.sftp") {
+		runC16SFTP(c)
 		return
 	}
 	unc := c.Bool("c16.uncompressed") // store mode under test
